@@ -48,6 +48,19 @@ type WMetaFile struct {
 type WFile struct {
 	Path    string `json:"path"`
 	Content string `json:"content"`
+	Special string `json:"special,omitempty"` // "" | setuid | setgid | sticky: a regular file with that mode bit
+}
+
+func specialMode(s string) os.FileMode {
+	switch s {
+	case "setuid":
+		return os.ModeSetuid
+	case "setgid":
+		return os.ModeSetgid
+	case "sticky":
+		return os.ModeSticky
+	}
+	return 0
 }
 
 // WKey describes a key handed to the verifier.
@@ -130,6 +143,9 @@ func (b *Built) subst(s string) string {
 	s = strings.ReplaceAll(s, "@RUNDIR@", filepath.Join(b.Root, "run", "product"))
 	return s
 }
+
+// Subst replaces the placeholders (@EMIT@, @LOG@, @ROOT@, @RUNDIR@) in s.
+func (b *Built) Subst(s string) string { return b.subst(s) }
 
 func (b *Built) substTree(v any) any {
 	switch x := v.(type) {
@@ -337,6 +353,11 @@ func Materialise(w World, root string) (*Built, error) {
 		if err := os.WriteFile(p, []byte(f.Content), 0o644); err != nil {
 			return nil, err
 		}
+		if m := specialMode(f.Special); m != 0 {
+			if err := os.Chmod(p, 0o755|m); err != nil {
+				return nil, err
+			}
+		}
 	}
 	return b, nil
 }
@@ -420,7 +441,13 @@ func copyTree(src, dst string) error {
 			if err != nil {
 				return err
 			}
-			return os.WriteFile(target, data, info.Mode().Perm())
+			if err := os.WriteFile(target, data, info.Mode().Perm()); err != nil {
+				return err
+			}
+			if extra := info.Mode() & (os.ModeSetuid | os.ModeSetgid | os.ModeSticky); extra != 0 {
+				return os.Chmod(target, info.Mode().Perm()|extra)
+			}
+			return nil
 		}
 	})
 }
